@@ -166,6 +166,8 @@ class FileReader(FileBase):
 
         filenames = self.sinfo.get_info_list("filename")
         super().__init__(filenames, mode)
+        # The stream begins at the first sample, not at the header of file 0
+        self._seek2hdr(0)
 
     @property
     def cur_data_pos_file(self) -> int | None:
